@@ -214,7 +214,7 @@ Print Assumptions C15_config_bound.
    > 0); [rl_allow] consults the global bucket first and only then the client limiter; [rl_decisions r h] are the results
    (RlOk | RlGlobal | RlClient) of a run of arrivals; [glob_verdicts g h] are the answers of the global bucket alone (it is
    charged by every arrival with a valid address and by nothing else); [rl_decisions_given o t h vs] is the limiter with
-   the global answers GIVEN; [rl_granted] the cost admitted (RlOk) for a subnet in a window. *)
+   the global answers GIVEN; [rl_granted] the cost granted (RlOk) for a subnet in a window. *)
 
 (* A query refused by the global limit leaves every client bucket untouched. *)
 Theorem C15_global_refusal_charges_no_client : forall (r : rl) (now : Z) (a : lim_addr) (n : Z),
@@ -222,7 +222,7 @@ Theorem C15_global_refusal_charges_no_client : forall (r : rl) (now : Z) (a : li
 Proof. exact global_refusal_no_client_charge. Qed.
 Print Assumptions C15_global_refusal_charges_no_client.
 
-(* The cost ADMITTED for a subnet through the composed limiter is bounded by the subnet's own bucket, with or without
+(* The cost GRANTED for a subnet through the composed limiter is bounded by the subnet's own bucket, with or without
    a global limit, whatever the other subnets do. *)
 Theorem C15_composed_bound : forall (c : lim_config) (k : lim_addr) (t0 t1 now0 : Z) (h : list rl_arrival),
   0 < lc_limit c -> k <> LANone -> lim_sorted (rl_events h) = true -> t0 <= t1 ->
@@ -239,7 +239,7 @@ Print Assumptions C15_composed_bound.
    (2) what the clients of k are told = what they are told in the system in which ONLY k's arrivals exist and the
        global check gives them the answers the shared bucket gave them: other subnets influence k through these
        answers and through nothing else;
-   (3) the client bucket of k after the run is the bucket after k's own globally admitted arrivals alone. *)
+   (3) the client bucket of k after the run is the bucket after k's own globally passed arrivals alone. *)
 Theorem C15_global_isolation : forall (c : lim_config) (k : lim_addr) (t0 : Z) (h : list rl_arrival),
   0 < lc_limit c ->
   let o := set_default (cfg_opts c) in
@@ -261,8 +261,8 @@ Print Assumptions C15_global_isolation.
 (* The clause itself: "a client whose own subnet is within budget is never refused because of traffic from other
    subnets (only the global limit is shared)".  In any reachable state of the composed limiter (after any run h of
    arrivals with non-decreasing timestamps and non-negative costs, any subnets, global limit on or off), an arrival that
-   is refused by the CLIENT limit exceeds the subnet's own budget: the cost admitted for its subnet so far plus its own
-   cost is more than the burst (no refill counted).  So a subnet for which nothing was admitted is never refused by the
+   is refused by the CLIENT limit exceeds the subnet's own budget: the cost granted for its subnet so far plus its own
+   cost is more than the burst (no refill counted).  So a subnet for which nothing was granted is never refused by the
    client limit for a cost <= burst, however much was refused globally before. *)
 Theorem C15_client_refusal_means_own_budget :
   forall (c : lim_config) (t0 : Z) (h : list rl_arrival) (now : Z) (a : lim_addr) (n tlow : Z),
@@ -277,7 +277,7 @@ Print Assumptions C15_client_refusal_means_own_budget.
 (* With the WRONG order (client bucket first, then the global one: [rl_allow_client_first]) all of this fails.
    global 5/s, client 1/s burst 5: five other /24s use up the global bucket, the victim tries five times (refused by the
    global limit, but each try has consumed one token of its own bucket), 1.1 s later the victim's second query is refused
-   by its CLIENT limit although a cost of 1 was ever admitted for it (1 + 1 <= burst 5). *)
+   by its CLIENT limit although a cost of 1 was ever granted for it (1 + 1 <= burst 5). *)
 Theorem C15_client_first_refuted :
   (exists (r : rl) (now : Z) (a : lim_addr) (n : Z),
      snd (rl_allow_client_first r now a n) = RlGlobal /\
@@ -382,7 +382,7 @@ Example C15_config_example :
 Proof. vm_compute. repeat split; try reflexivity; intros H; discriminate. Qed.
 
 (* global 5/s, client 1/s burst 5 (the cfw witness): the victim's five tries during the overload are refused by the GLOBAL limit and
-   cost it nothing; 1.1 s later both of its queries are admitted; its bucket was never touched by the refusals. *)
+   cost it nothing; 1.1 s later both of its queries are granted; its bucket was never touched by the refusals. *)
 Example C15_global_example :
   rl_results_for cfw_cfg cfw_key cfw_history (rl_decisions (rl_of_config cfw_cfg 0) cfw_history)
     = [RlGlobal; RlGlobal; RlGlobal; RlGlobal; RlGlobal; RlOk; RlOk] /\
